@@ -15,8 +15,6 @@ static uint8_t tableStep(uint8_t c, uint8_t v) { ebusd::SymbolString::updateCrc(
 #define CAP (NNMAX + 5)
 #define REF_MAXL CAP
 #include "ref_bus.h"
-using namespace ebusd;
-typedef ref::Parser P;
 
 // events of the current step in order (a step sees at most: timeout, AUTO-SYN echo; or one symbol; or one fault)
 static uint8_t g_evKind[4], g_evByte[4];
@@ -26,71 +24,7 @@ void env_on_read(uint8_t b, bool) { if (g_nEv < 4) { g_evKind[g_nEv] = 1; g_evBy
 void env_on_write(uint8_t) {}
 }
 
-static void setVec(std::vector<uint8_t>& v, const uint8_t* src, uint8_t n) {
-  v.reserve(CAP + 2);
-  for (int i = 0; i < CAP; i++) v.push_back(src[i]);
-  v._M_impl._M_finish = v._M_impl._M_start + n;   // size n, capacity CAP+2 (capacity is unobservable)
-}
-
-// the relation R between handler state and recogniser state
-static bool related(DirectProtocolHandler& h, const P& r) {
-  if (h.m_currentRequest != nullptr || h.m_currentAnswering) return false;
-  // passive operation never touches the request queues or the device's arbitration state
-  if (h.m_nextRequests.peek() != nullptr || h.m_finishedRequests.peek() != nullptr) return false;
-  {
-    PlainDevice* d = static_cast<PlainDevice*>(h.m_device);
-    if (d->m_arbitrationMaster != SYN || d->m_arbitrationCheck != 0) return false;
-  }
-  size_t cl = h.m_command.size(), rl = h.m_response.size();
-  bool cmdEq = cl == r.mlen, resEq = rl == r.slen;
-  for (int i = 0; i < CAP; i++) {
-    if (i < static_cast<int>(r.mlen) && i < static_cast<int>(cl) && h.m_command.data()[i] != r.m[i]) cmdEq = false;
-    if (i < static_cast<int>(r.slen) && i < static_cast<int>(rl) && h.m_response.data()[i] != r.s[i]) resEq = false;
-  }
-  bool escEq = (h.m_escape == ESC) == r.esc && (h.m_escape == 0 || h.m_escape == ESC);
-  // the response buffer is emptied on every entry to bs_skip/bs_ready (setState) and only filled in bs_recvRes
-  if (r.ph >= P::QQ && r.ph <= P::CMDACK && rl != 0) return false;
-  switch (r.ph) {
-    case P::IDLE: return h.m_state == bs_noSignal || h.m_state == bs_skip;
-    case P::QQ:
-      if (!r.cmdRepeat) return h.m_state == bs_ready && cl == 0 && h.m_crc == r.crc && escEq;
-      return h.m_state == bs_recvCmd && cl == 0 && h.m_repeat && h.m_crc == r.crc && escEq;
-    case P::ZZ: case P::PB: case P::SB: case P::NN: case P::DATA:
-      return h.m_state == bs_recvCmd && cmdEq && h.m_crc == r.crc && h.m_repeat == r.cmdRepeat && escEq;
-    case P::CRC: return h.m_state == bs_recvCmdCrc && cmdEq && h.m_crc == r.crc && h.m_repeat == r.cmdRepeat && escEq;
-    case P::CMDACK: return h.m_state == bs_recvCmdAck && cmdEq && h.m_crcValid == r.crcOk && h.m_repeat == r.cmdRepeat && escEq;
-    case P::RNN: case P::RDATA:
-      return h.m_state == bs_recvRes && cmdEq && resEq && h.m_crc == r.crc && h.m_repeat == r.resRepeat && escEq;
-    case P::RCRC: return h.m_state == bs_recvResCrc && cmdEq && resEq && h.m_crc == r.crc && h.m_repeat == r.resRepeat && escEq;
-    case P::RESACK: return h.m_state == bs_recvResAck && cmdEq && resEq && h.m_crcValid == r.crcOk && h.m_repeat == r.resRepeat && escEq;
-  }
-  return false;
-}
-
-// recogniser states that a byte stream can produce (representation invariant of ref::Parser)
-static bool refInv(const P& r) {
-  if (r.ph > P::RESACK) return false;
-  bool hdr = r.mlen >= 1 && ref::is_master(r.m[0]) && (r.mlen < 2 || (ref::valid_addr(r.m[1]) && r.m[1] != r.m[0]));
-  bool full = hdr && r.mlen >= 5 && r.mlen == 5 + r.m[4] && r.mlen <= CAP;
-  bool notBc = r.m[1] != 0xFE;
-  if (r.ph >= P::QQ && r.ph <= P::CMDACK && r.slen != 0) return false;   // syn() empties the slave part, only RNN.. fills it
-  switch (r.ph) {
-    case P::IDLE: return true;
-    case P::QQ: return r.mlen == 0 && r.crc == 0 ? true : (r.mlen == 0 && r.esc);  // after ESC the crc already covers it
-    case P::ZZ: return hdr && r.mlen == 1;
-    case P::PB: return hdr && r.mlen == 2;
-    case P::SB: return hdr && r.mlen == 3;
-    case P::NN: return hdr && r.mlen == 4;
-    case P::DATA: return hdr && r.mlen >= 5 && r.mlen < 5 + r.m[4] && r.need == 5 + r.m[4] - r.mlen && 5 + r.m[4] <= CAP;
-    case P::CRC: return full;
-    case P::CMDACK: return full && notBc && (r.crcOk || !r.cmdRepeat);
-    case P::RNN: return full && notBc && !ref::is_master(r.m[1]) && r.slen == 0;
-    case P::RDATA: return full && notBc && !ref::is_master(r.m[1]) && r.slen >= 1 && r.slen < 1 + r.s[0] && r.need == 1 + r.s[0] - r.slen && 1 + r.s[0] <= CAP;
-    case P::RCRC: return full && notBc && !ref::is_master(r.m[1]) && r.slen >= 1 && r.slen == 1 + r.s[0] && r.slen <= CAP;
-    case P::RESACK: return full && notBc && !ref::is_master(r.m[1]) && r.slen >= 1 && r.slen == 1 + r.s[0] && r.slen <= CAP && (r.crcOk || !r.resRepeat);
-  }
-  return false;
-}
+#include "rel_bus.h"
 
 #ifdef VP_NATIVE
 #include <cstdio>
